@@ -66,6 +66,10 @@ class CallMixin:
                     r = ci.resolve("__call__")
                     if r and r[0] == "func":
                         return self.call_function(r[1], [fn] + args, kwargs, self_val=fn)
+                if isinstance(fn, Sym) and not getattr(fn, "tags", None) and ")." in str(getattr(fn, "path", "")):
+                    # an attribute of the result of an unmodelled method of opaque data (`default.strip().upper`):
+                    # nothing is known about it - outside the subset (undecided), not a definite TypeError
+                    raise Unsupported(f"call of a value of unknown kind: {self.ident(fn)}")
                 raise PathEnd("raise", ("TypeError", f"'{self.ident(fn)}' object is not callable"))
             raise Unsupported(f"call of {fn!r}")
         k = fn.kind
@@ -1044,7 +1048,8 @@ class CallMixin:
             return self.contract_call(v, name, args, kwargs)
         if name == "replace" and len(args) == 2 and (v.tags == frozenset({"str"}) or v.label in ("value", "name")):
             return S((OpA("replace", (self.to_shape(v), args[0], args[1])),))
-        if name in ("lower", "upper"):
+        if name in ("lower", "upper") or (name in ("strip", "lstrip", "rstrip") and not args and
+                                          (v.tags == frozenset({"str"}) or v.label in ("value", "name"))):
             return S((OpA(name, (self.to_shape(v),)),))
         if name in ("split", "rsplit", "splitlines", "partition", "rpartition"):
             # pieces of a string: opaque derived data (not the datum itself)
